@@ -213,7 +213,7 @@ impl<'a> ExecutorBuilder<'a> {
                                                     ) => agg_col
                                                         .column
                                                         .eq_ignore_ascii_case(arg_col.column),
-                                                    (None, _) | (Some(Expr::Literal(_)), _) => true,
+                                                    (None, None) | (Some(Expr::Literal(_)), _) => true,
                                                     _ => false,
                                                 };
                                                 if args_match {
@@ -417,20 +417,19 @@ impl<'a> ExecutorBuilder<'a> {
                     .aggregates
                     .iter()
                     .map(|agg_expr| {
-                        let column_idx = agg_expr
-                            .argument
-                            .and_then(|arg| {
-                                if let crate::sql::ast::Expr::Column(col) = arg {
-                                    resolve_column_index(col, column_map)
-                                } else {
-                                    None
-                                }
-                            })
-                            .unwrap_or(0);
+                        let column_opt = agg_expr.argument.and_then(|arg| {
+                            if let crate::sql::ast::Expr::Column(col) = arg {
+                                resolve_column_index(col, column_map)
+                            } else {
+                                None
+                            }
+                        });
+                        let column_idx = column_opt.unwrap_or(0);
                         match agg_expr.function {
                             crate::sql::planner::AggregateFunction::Count => {
                                 AggregateFunction::Count {
                                     distinct: agg_expr.distinct,
+                                    column: column_opt,
                                 }
                             }
                             crate::sql::planner::AggregateFunction::Sum => {
@@ -495,20 +494,19 @@ impl<'a> ExecutorBuilder<'a> {
                     .aggregates
                     .iter()
                     .map(|agg_expr| {
-                        let column_idx = agg_expr
-                            .argument
-                            .and_then(|arg| {
-                                if let crate::sql::ast::Expr::Column(col) = arg {
-                                    resolve_column_index(col, column_map)
-                                } else {
-                                    None
-                                }
-                            })
-                            .unwrap_or(0);
+                        let column_opt = agg_expr.argument.and_then(|arg| {
+                            if let crate::sql::ast::Expr::Column(col) = arg {
+                                resolve_column_index(col, column_map)
+                            } else {
+                                None
+                            }
+                        });
+                        let column_idx = column_opt.unwrap_or(0);
                         match agg_expr.function {
                             crate::sql::planner::AggregateFunction::Count => {
                                 AggregateFunction::Count {
                                     distinct: agg_expr.distinct,
+                                    column: column_opt,
                                 }
                             }
                             crate::sql::planner::AggregateFunction::Sum => {
